@@ -570,15 +570,18 @@ func (s *state) walkFilterNode(node *parse.FilterNode) error {
 	if err != nil {
 		return err
 	}
-	val := string(buf.Bytes())
+	// Each filter receives what the previous one returned (a number, a list,
+	// a safe value ...), as in the expression body|f|g; only the final result
+	// is written out as text.
+	var val Value = string(buf.Bytes())
 	for _, v := range node.Filters {
 		f, ok := s.env.Filters[v]
 		if !ok {
 			return errors.New("undefined filter \"" + v + "\".")
 		}
-		val = CoerceString(f(s, val))
+		val = f(s, val)
 	}
-	_, err = io.WriteString(prevBuf, val)
+	_, err = io.WriteString(prevBuf, CoerceString(val))
 	return err
 }
 
